@@ -18,6 +18,8 @@ import VotelibProofs.Lemmas.BipropRefusal
 namespace VL.C07
 open VL VL.Biprop Finset
 
+variable {ord : List Nat}
+
 /-! ### Part 1 — verified certificate checkers -/
 
 /-- **Soundness of the result checker** (index-function form, any `m × n`). -/
@@ -202,7 +204,7 @@ theorem augment_preserves_columns {q : Rat} {qt : Nat → Nat → Rat} {m n : Na
     under the (unchanged) multipliers. -/
 theorem transfer_preserves_inv {q : Rat} {V : Mat Rat} {tgt : List Nat} {s s' : State}
     (hs : shapeOk s.x V.length (nCols V) = true) (hinv : LoopInv q V V.length (nCols V) s)
-    (h : step q V tgt s = .ok (.transfer s')) :
+    (h : step q ord V tgt s = .ok (.transfer s')) :
     shapeOk s'.x V.length (nCols V) = true ∧ LoopInv q V V.length (nCols V) s' ∧
     ∀ j, ∑ i ∈ range V.length, mget s'.x i j = ∑ i ∈ range V.length, mget s.x i j := by
   obtain ⟨hdc, hpc, path, hcells, happ, labD, labP, over, f, start, hpath⟩ := step_transfer h
@@ -253,7 +255,7 @@ theorem transfer_preserves_inv {q : Rat} {V : Mat Rat} {tgt : List Nat} {s s' : 
 /-- **The multiplier update keeps the invariant** (`_adj_coef` and L631-634). -/
 theorem update_preserves_inv {q : Rat} {V : Mat Rat} {tgt : List Nat} {s s' : State} {c : Rat}
     (hq1 : q < 1) (hV : votesOk V = true)
-    (hinv : LoopInv q V V.length (nCols V) s) (h : step q V tgt s = .ok (.update s' c)) :
+    (hinv : LoopInv q V V.length (nCols V) s) (h : step q ord V tgt s = .ok (.update s' c)) :
     s'.x = s.x ∧ 0 < c ∧ c < 1 ∧ LoopInv q V V.length (nCols V) s' := by
   obtain ⟨hx, hc0, hc1, labD, labP, hadj, _, _⟩ := step_update h
   have hcnn := (adjCoef_bounds hq1 hadj).1
@@ -261,7 +263,7 @@ theorem update_preserves_inv {q : Rat} {V : Mat Rat} {tgt : List Nat} {s s' : St
 
 /-- **Termination test**: the loop only returns when every district holds exactly its target. -/
 theorem step_done_rows {q : Rat} {V : Mat Rat} {tgt : List Nat} {s : State}
-    (hs : shapeOk s.x V.length (nCols V) = true) (h : step q V tgt s = .ok .done) :
+    (hs : shapeOk s.x V.length (nCols V) = true) (h : step q ord V tgt s = .ok .done) :
     ∀ i < V.length, ∑ j ∈ range (nCols V), mget s.x i j = tgt.getD i 0 := by
   intro i hi
   rw [← step_done h i hi, ← sumN_eq_sum]
@@ -272,7 +274,7 @@ theorem step_done_rows {q : Rat} {V : Mat Rat} {tgt : List Nat} {s : State}
 /-- what a successful run of the loop guarantees (partial correctness of the port, any fuel, any size) -/
 theorem run_ok_sound {q : Rat} {V : Mat Rat} {tgt : List Nat} (hq1 : q < 1) (hV : votesOk V = true) :
     ∀ (fuel : Nat) (s : State) (nt : Nat) (ups : List Rat) (o : Outcome),
-      stateOk q V s = true → run q V tgt fuel s nt ups = .ok o →
+      stateOk q V s = true → run q ord V tgt fuel s nt ups = .ok o →
       shapeOk o.final.x V.length (nCols V) = true ∧
       (∀ i < V.length, ∑ j ∈ range (nCols V), mget o.final.x i j = tgt.getD i 0) ∧
       (∀ j, ∑ i ∈ range V.length, mget o.final.x i j = ∑ i ∈ range V.length, mget s.x i j) ∧
@@ -284,7 +286,7 @@ theorem run_ok_sound {q : Rat} {V : Mat Rat} {tgt : List Nat} (hq1 : q < 1) (hV 
   | fuel+1, s, nt, ups, o, hok, h => by
     obtain ⟨hs, hinv⟩ := stateOk_iff.mp hok
     simp only [run] at h
-    cases hstep : step q V tgt s with
+    cases hstep : step q ord V tgt s with
     | error e => rw [hstep] at h; simp at h
     | ok r =>
       rw [hstep] at h
@@ -313,13 +315,13 @@ theorem run_ok_sound {q : Rat} {V : Mat Rat} {tgt : List Nat} (hq1 : q < 1) (hV 
 /-- party totals never change during a run (needs only the shape of the seat matrix) -/
 theorem run_preserves_columns {q : Rat} {V : Mat Rat} {tgt : List Nat} :
     ∀ (fuel : Nat) (s : State) (nt : Nat) (ups : List Rat) (o : Outcome),
-      shapeOk s.x V.length (nCols V) = true → run q V tgt fuel s nt ups = .ok o →
+      shapeOk s.x V.length (nCols V) = true → run q ord V tgt fuel s nt ups = .ok o →
       shapeOk o.final.x V.length (nCols V) = true ∧
       ∀ j, ∑ i ∈ range V.length, mget o.final.x i j = ∑ i ∈ range V.length, mget s.x i j
   | 0, _, _, _, _, _, h => by simp [run] at h
   | fuel+1, s, nt, ups, o, hs, h => by
     simp only [run] at h
-    cases hstep : step q V tgt s with
+    cases hstep : step q ord V tgt s with
     | error e => rw [hstep] at h; simp at h
     | ok r =>
       rw [hstep] at h
@@ -340,12 +342,12 @@ theorem run_preserves_columns {q : Rat} {V : Mat Rat} {tgt : List Nat} :
 /-- a successful run meets every district target (needs only the shape of the seat matrix) -/
 theorem run_ok_rows {q : Rat} {V : Mat Rat} {tgt : List Nat} :
     ∀ (fuel : Nat) (s : State) (nt : Nat) (ups : List Rat) (o : Outcome),
-      shapeOk s.x V.length (nCols V) = true → run q V tgt fuel s nt ups = .ok o →
+      shapeOk s.x V.length (nCols V) = true → run q ord V tgt fuel s nt ups = .ok o →
       ∀ i < V.length, ∑ j ∈ range (nCols V), mget o.final.x i j = tgt.getD i 0
   | 0, _, _, _, _, _, h => by simp [run] at h
   | fuel+1, s, nt, ups, o, hs, h => by
     simp only [run] at h
-    cases hstep : step q V tgt s with
+    cases hstep : step q ord V tgt s with
     | error e => rw [hstep] at h; simp at h
     | ok r =>
       rw [hstep] at h
@@ -366,7 +368,7 @@ theorem run_ok_rows {q : Rat} {V : Mat Rat} {tgt : List Nat} :
 theorem evaluate_ok_sound {div : Nat → Rat} {q : Rat} {V : Mat Rat} {total fuel : Nat} {rows : Option (List Nat)}
     {o : Outcome} (hq1 : q < 1) (hV : votesOk V = true)
     (hinit : ∀ s0, initState div q V total = .ok s0 → stateOk q V s0 = true)
-    (h : evaluate div q V total rows fuel = .ok o) :
+    (h : evaluate div q ord V total rows fuel = .ok o) :
     ∃ s0 tgt, initState div q V total = .ok s0 ∧
       (rows = some tgt ∨ (rows = none ∧ districtSeats div V total = .ok tgt)) ∧
       shapeOk o.final.x V.length (nCols V) = true ∧
@@ -419,7 +421,7 @@ theorem initState_consistent {div : Nat → Rat} {q : Rat} (hdiv : SignpostDiv d
     the final multipliers are positive and make every cell a signpost rounding. -/
 theorem evaluate_sound {div : Nat → Rat} {q : Rat} (hdiv : SignpostDiv div q) {V : Mat Rat} {total fuel : Nat}
     {rows : Option (List Nat)} {o : Outcome} (hV : votesOk V = true) (hpos : hasVotes V = true)
-    (h : evaluate div q V total rows fuel = .ok o) :
+    (h : evaluate div q ord V total rows fuel = .ok o) :
     ∃ s0 tgt, initState div q V total = .ok s0 ∧
       (rows = some tgt ∨ (rows = none ∧ districtSeats div V total = .ok tgt)) ∧
       shapeOk o.final.x V.length (nCols V) = true ∧
@@ -435,7 +437,7 @@ theorem evaluate_sound {div : Nat → Rat} {q : Rat} (hdiv : SignpostDiv div q) 
     overall party votes (which hands out exactly `total` seats); district totals equal the district apportionment
     (given explicitly, or `districtSeats`: highest averages over the district totals, handing out `total` seats). -/
 theorem evaluate_marginals {div : Nat → Rat} {q : Rat} {V : Mat Rat} {total fuel : Nat}
-    {rows : Option (List Nat)} {o : Outcome} (h : evaluate div q V total rows fuel = .ok o) :
+    {rows : Option (List Nat)} {o : Outcome} (h : evaluate div q ord V total rows fuel = .ok o) :
     ∃ ps tgt, partySeats div V total = .ok ps ∧ ps.sum = total ∧ ps.length = nCols V ∧
       (rows = some tgt ∨ (rows = none ∧ districtSeats div V total = .ok tgt ∧ tgt.sum = total ∧
         tgt.length = V.length)) ∧
@@ -609,7 +611,8 @@ theorem districtSeats_divisor_method {div : Nat → Rat} {q : Rat} (hdiv : Signp
     state, the labels form a Hall cut accepted by the verified checker, hence no seat matrix with the district targets,
     the current party totals and zeros where the votes are zero exists. -/
 theorem step_refusal_justified {q : Rat} (hq : q = 0 ∨ q = 1/2) {V : Mat Rat} {tgt : List Nat} {s : State}
-    (hV : votesOk V = true) (hok : stateOk q V s = true) (h : step q V tgt s = .error .votingSystemError) :
+    (hV : votesOk V = true) (hcov : ordCovers ord V = true) (hok : stateOk q V s = true)
+    (h : step q ord V tgt s = .error .votingSystemError) :
     (∃ S T : Nat → Bool, infeasibleCheck V.length (nCols V) (vget V) (fun i => tgt.getD i 0)
       (fun j => sumN (fun i => mget s.x i j) V.length) S T = true) ∧
     ¬ ∃ x : Nat → Nat → Nat,
@@ -617,7 +620,7 @@ theorem step_refusal_justified {q : Rat} (hq : q = 0 ∨ q = 1/2) {V : Mat Rat} 
       (∀ j < nCols V, ∑ i ∈ range V.length, x i j = ∑ i ∈ range V.length, mget s.x i j) ∧
       (∀ i < V.length, ∀ j < nCols V, vget V i j = 0 → x i j = 0) := by
   obtain ⟨hs, hinv⟩ := stateOk_iff.mp hok
-  obtain ⟨S, T, hcut⟩ := step_refusal_cut hq (votesOk_nonneg hV) hs hinv h
+  obtain ⟨S, T, hcut⟩ := step_refusal_cut hq (votesOk_nonneg hV) hcov hs hinv h
   refine ⟨⟨S, T, hcut⟩, ?_⟩
   have := infeasible_sound _ _ _ _ _ _ _ hcut
   simpa only [sumN_eq_sum] using this
@@ -626,9 +629,9 @@ theorem step_refusal_justified {q : Rat} (hq : q = 0 ∨ q = 1/2) {V : Mat Rat} 
     `VotingSystemError` certifies (by a cut the verified checker accepts) that no seat matrix with the district
     targets, the party totals of the start state and zeros where the votes are zero exists. -/
 theorem run_refusal_justified {q : Rat} (hq : q = 0 ∨ q = 1/2) {V : Mat Rat} {tgt : List Nat}
-    (hV : votesOk V = true) :
+    (hV : votesOk V = true) (hcov : ordCovers ord V = true) :
     ∀ (fuel : Nat) (s : State) (nt : Nat) (ups : List Rat),
-      stateOk q V s = true → run q V tgt fuel s nt ups = .error .votingSystemError →
+      stateOk q V s = true → run q ord V tgt fuel s nt ups = .error .votingSystemError →
       ∃ S T : Nat → Bool, infeasibleCheck V.length (nCols V) (vget V) (fun i => tgt.getD i 0)
         (fun j => sumN (fun i => mget s.x i j) V.length) S T = true
   | 0, _, _, _, _, h => by simp [run] at h
@@ -636,12 +639,12 @@ theorem run_refusal_justified {q : Rat} (hq : q = 0 ∨ q = 1/2) {V : Mat Rat} {
     have hq1 : q < 1 := by rcases hq with rfl | rfl <;> norm_num
     obtain ⟨hs, hinv⟩ := stateOk_iff.mp hok
     simp only [run] at h
-    cases hstep : step q V tgt s with
+    cases hstep : step q ord V tgt s with
     | error e =>
       rw [hstep] at h
       simp only [Except.error.injEq] at h
       subst h
-      exact (step_refusal_justified hq hV hok hstep).1
+      exact (step_refusal_justified hq hV hcov hok hstep).1
     | ok r =>
       rw [hstep] at h
       cases r with
@@ -649,7 +652,7 @@ theorem run_refusal_justified {q : Rat} (hq : q = 0 ∨ q = 1/2) {V : Mat Rat} {
       | transfer s' =>
         simp only at h
         obtain ⟨hs', hinv', hcols⟩ := transfer_preserves_inv hs hinv hstep
-        obtain ⟨S, T, hcut⟩ := run_refusal_justified hq hV fuel s' _ _ (stateOk_iff.mpr ⟨hs', hinv'⟩) h
+        obtain ⟨S, T, hcut⟩ := run_refusal_justified hq hV hcov fuel s' _ _ (stateOk_iff.mpr ⟨hs', hinv'⟩) h
         have : (fun j => sumN (fun i => mget s'.x i j) V.length) = (fun j => sumN (fun i => mget s.x i j) V.length) := by
           funext j; rw [sumN_eq_sum, sumN_eq_sum]; exact hcols j
         rw [this] at hcut
@@ -657,7 +660,7 @@ theorem run_refusal_justified {q : Rat} (hq : q = 0 ∨ q = 1/2) {V : Mat Rat} {
       | update s' cf =>
         simp only at h
         obtain ⟨hx, _, _, hinv'⟩ := update_preserves_inv hq1 hV hinv hstep
-        obtain ⟨S, T, hcut⟩ := run_refusal_justified hq hV fuel s' _ _
+        obtain ⟨S, T, hcut⟩ := run_refusal_justified hq hV hcov fuel s' _ _
           (stateOk_iff.mpr ⟨by rw [hx]; exact hs, hinv'⟩) h
         rw [hx] at hcut
         exact ⟨S, T, hcut⟩
@@ -667,7 +670,7 @@ theorem run_refusal_justified {q : Rat} (hq : q = 0 ∨ q = 1/2) {V : Mat Rat} {
     highest-averages party apportionment as column sums and zeros where the votes are zero. -/
 theorem evaluate_refusal_justified {div : Nat → Rat} {q : Rat} (hdiv : SignpostDiv div q) (hq : q = 0 ∨ q = 1/2)
     {V : Mat Rat} {total fuel : Nat} {rows : Option (List Nat)} (hV : votesOk V = true) (hpos : hasVotes V = true)
-    (h : evaluate div q V total rows fuel = .error .votingSystemError) :
+    (hcov : ordCovers ord V = true) (h : evaluate div q ord V total rows fuel = .error .votingSystemError) :
     ∃ ps tgt, partySeats div V total = .ok ps ∧
       (rows = some tgt ∨ (rows = none ∧ districtSeats div V total = .ok tgt)) ∧
       ¬ ∃ x : Nat → Nat → Nat,
@@ -699,13 +702,13 @@ theorem evaluate_refusal_justified {div : Nat → Rat} {q : Rat} (hdiv : Signpos
         | ok ps => exact ⟨ps, rfl, rfl⟩
     obtain ⟨ps, hps, hx0⟩ := hinit
     have hcols0 := initialSolution_cols hps hx0
-    have key : ∀ tgt : List Nat, run q V tgt fuel s0 0 [] = .error .votingSystemError →
+    have key : ∀ tgt : List Nat, run q ord V tgt fuel s0 0 [] = .error .votingSystemError →
         ¬ ∃ x : Nat → Nat → Nat,
           (∀ i < V.length, ∑ j ∈ range (nCols V), x i j = tgt.getD i 0) ∧
           (∀ j < nCols V, ∑ i ∈ range V.length, x i j = ps.getD j 0) ∧
           (∀ i < V.length, ∀ j < nCols V, vget V i j = 0 → x i j = 0) := by
       intro tgt hrun
-      obtain ⟨S, T, hcut⟩ := run_refusal_justified hq hV fuel s0 0 [] hok hrun
+      obtain ⟨S, T, hcut⟩ := run_refusal_justified hq hV hcov fuel s0 0 [] hok hrun
       have := infeasible_sound _ _ _ _ _ _ _ hcut
       rintro ⟨x, hr, hc, hz⟩
       apply this
@@ -727,6 +730,95 @@ theorem evaluate_refusal_justified {div : Nat → Rat} {q : Rat} (hdiv : Signpos
         simp only at h
         exact ⟨ps, tgt, hps, Or.inr ⟨rfl, rfl⟩, key tgt h⟩
 
+/-! ### the party order `all_parties` -/
+
+private theorem fa_inner (row : List Bool) : ∀ (k : Nat) (acc : List Nat),
+    let r := (List.range k).foldl (fun acc j => if row.getD j false && !acc.contains j then acc ++ [j] else acc) acc
+    (∀ a ∈ acc, a ∈ r) ∧ ∀ j < k, row.getD j false = true → j ∈ r := by
+  intro k
+  induction k with
+  | zero => intro acc; exact ⟨fun a ha => ha, fun j hj => by omega⟩
+  | succ k ih =>
+    intro acc
+    rw [List.range_succ, List.foldl_append]
+    obtain ⟨h1, h2⟩ := ih acc
+    simp only [List.foldl_cons, List.foldl_nil]
+    split
+    · refine ⟨fun a ha => List.mem_append_left _ (h1 a ha), fun j hj hp => ?_⟩
+      rcases Nat.lt_succ_iff_lt_or_eq.mp hj with h | h
+      · exact List.mem_append_left _ (h2 j h hp)
+      · subst h; simp
+    · rename_i hc
+      refine ⟨h1, fun j hj hp => ?_⟩
+      rcases Nat.lt_succ_iff_lt_or_eq.mp hj with h | h
+      · exact h2 j h hp
+      · subst h
+        simp only [Bool.and_eq_true, Bool.not_eq_true', not_and, Bool.not_eq_false] at hc
+        have := hc hp
+        simpa using this
+
+private theorem fa_outer : ∀ (present : List (List Bool)) (acc : List Nat),
+    let r := present.foldl (fun acc row =>
+      (List.range row.length).foldl (fun acc j => if row.getD j false && !acc.contains j then acc ++ [j] else acc) acc) acc
+    (∀ a ∈ acc, a ∈ r) ∧ ∀ row ∈ present, ∀ j < row.length, row.getD j false = true → j ∈ r
+  | [], acc => ⟨fun a ha => ha, fun row hr => by simp at hr⟩
+  | row :: rest, acc => by
+    simp only [List.foldl_cons]
+    obtain ⟨i1, i2⟩ := fa_inner row row.length acc
+    obtain ⟨o1, o2⟩ := fa_outer rest _
+    refine ⟨fun a ha => o1 a (i1 a ha), fun row' hr' j hj hp => ?_⟩
+    rcases List.mem_cons.mp hr' with rfl | hr'
+    · exact o1 j (i2 j hj hp)
+    · exact o2 row' hr' j hj hp
+
+/-- **The first-appearance order covers every party with votes** whenever the presence mask fits the matrix; so the
+    hypothesis `ordCovers` of the refusal theorems holds for the order the driver computes from a sparse input. -/
+theorem firstAppearance_covers {present : List (List Bool)} {V : Mat Rat} (h : maskOk present V = true) :
+    ordCovers (firstAppearance present) V = true := by
+  simp only [maskOk, Bool.and_eq_true, beq_iff_eq, List.all_eq_true, List.mem_range, Bool.or_eq_true] at h
+  obtain ⟨hlen, hcells⟩ := h
+  simp only [ordCovers, List.all_eq_true, List.mem_range, Bool.or_eq_true, beq_iff_eq]
+  intro r hr j hj
+  obtain ⟨i, hi, rfl⟩ := List.mem_iff_getElem.mp hr
+  obtain ⟨hl, hc⟩ := hcells i hi
+  have hVi : V.getD i [] = V[i] := by
+    rw [List.getD_eq_getElem?_getD, List.getElem?_eq_getElem hi]; rfl
+  rw [hVi] at hl hc
+  rcases hc j hj with h0 | h0
+  · left; exact h0
+  · right
+    have hpi : i < present.length := by omega
+    have hPi : present.getD i [] = present[i] := by
+      rw [List.getD_eq_getElem?_getD, List.getElem?_eq_getElem hpi]; rfl
+    rw [hPi] at hl h0
+    have := (fa_outer present []).2 (present[i]) (List.getElem_mem hpi) j (by omega) h0
+    simpa [firstAppearance] using this
+
+/-- a full matrix: the order `0, 1, …, n-1` covers everything -/
+theorem ordCovers_range {V : Mat Rat} (h : shapeOk V V.length (nCols V) = true) :
+    ordCovers (List.range (nCols V)) V = true := by
+  simp only [ordCovers, List.all_eq_true, List.mem_range, Bool.or_eq_true, beq_iff_eq]
+  intro r hr j hj
+  right
+  have := ((shapeOk_iff V _ _).mp h).2 r hr
+  simp; omega
+
+/-- a sparse input where the order matters: district 0 lists only parties 2, 3, 4 (party 0 and 1 are missing keys), so
+    the parties are met in the order 2, 3, 4, 0, 1 -/
+example : firstAppearance [[false, false, true, true, true], [true, false, false, true, true],
+    [true, true, true, false, true], [true, true, false, true, true]] = [2, 3, 4, 0, 1] := by decide +kernel
+example : firstAppearance [[true, true], [true, true]] = [0, 1] := by decide +kernel
+
+/-- the order matters: on this sparse input the evaluator repaired for C07-O2 (first-appearance order 2,3,4,0,1) and an
+    evaluator iterating the parties by index reach different — both valid — seat matrices -/
+def exS : Mat Rat := [[0, 0, 1, 2, 2], [10, 0, 0, 2, 12], [10, 2, 6, 0, 3], [12, 8, 0, 6, 3]]
+example : (evaluate Gen.Divisor.d_hondt 0 [2, 3, 4, 0, 1] exS 7 none 100).toOption.map (fun o => o.final.x)
+    = some [[0, 0, 0, 0, 0], [1, 0, 0, 0, 1], [1, 0, 0, 0, 1], [1, 1, 0, 1, 0]] := by decide +kernel
+example : (evaluate Gen.Divisor.d_hondt 0 [0, 1, 2, 3, 4] exS 7 none 100).toOption.map (fun o => o.final.x)
+    = some [[0, 0, 0, 0, 0], [0, 0, 0, 0, 2], [2, 0, 0, 0, 0], [1, 1, 0, 1, 0]] := by decide +kernel
+example : ordCovers [2, 3, 4, 0, 1] exS = true ∧ maskOk [[false, false, true, true, true], [true, false, false, true, true],
+    [true, true, true, false, true], [true, true, false, true, true]] exS = true := by decide +kernel
+
 /-! ### non-vacuity: concrete inputs that meet the hypotheses and exercise every branch -/
 
 /-- the witness of fix 7aec924 (tie inside the per-party initial allocation, one transfer) -/
@@ -734,7 +826,7 @@ def exV : Mat Rat := [[3, 2], [5, 10], [3, 2]]
 
 example : votesOk exV = true ∧ hasVotes exV = true := by decide +kernel
 example : (initState Gen.Divisor.d_hondt 0 exV 10).toOption.map (stateOk 0 exV) = some true := by decide +kernel
-example : (evaluate Gen.Divisor.d_hondt 0 exV 10 none 100).toOption.map (fun o => (o.final.x, o.transfers))
+example : (evaluate Gen.Divisor.d_hondt 0 [0, 1] exV 10 none 100).toOption.map (fun o => (o.final.x, o.transfers))
     = some ([[1, 1], [2, 4], [1, 1]], 1) := by decide +kernel
 /-- its certificate passes the verified checker -/
 example : bipropCheckL 0 exV [2, 6, 2] [4, 6] [[1, 1], [2, 4], [1, 1]] [1, 1, 1] [1/2, 1/2] = true := by
@@ -748,7 +840,7 @@ def exW : Mat Rat := [[30, 0, 5], [0, 20, 10], [7, 8, 40]]
 example : votesOk exW = true ∧ hasVotes exW = true := by decide +kernel
 example : (initState Gen.Divisor.sainte_lague (1/2) exW 9).toOption.map (stateOk (1/2) exW) = some true := by
   decide +kernel
-example : (evaluate Gen.Divisor.sainte_lague (1/2) exW 9 none 100).toOption.map
+example : (evaluate Gen.Divisor.sainte_lague (1/2) [0, 1, 2] exW 9 none 100).toOption.map
     (fun o => (o.final.x, o.final.dc, o.final.pc, o.updates))
     = some ([[3, 0, 0], [0, 1, 1], [0, 1, 3]], [1, 1, 6/7], [1/12, 7/96, 3/40], [12/13, 65/66, 33/35]) := by
   decide +kernel
@@ -756,12 +848,13 @@ example : bipropCheckL (1/2) exW [3, 2, 4] [3, 2, 4] [[3, 0, 0], [0, 1, 1], [0, 
     = true := by decide +kernel
 
 /-- a justified refusal: district 0 votes only for party 0, which holds 2 seats, but is to get 4 -/
-example : (evaluate Gen.Divisor.d_hondt 0 [[5, 0], [3, 9]] 6 (some [4, 2]) 100).toOption.isNone = true := by
+example : (evaluate Gen.Divisor.d_hondt 0 [0, 1] [[5, 0], [3, 9]] 6 (some [4, 2]) 100).toOption.isNone = true := by
   decide +kernel
 /-- it is a `VotingSystemError` (the hypothesis of `evaluate_refusal_justified`), on a well-formed input -/
-example : (match evaluate Gen.Divisor.d_hondt 0 [[5, 0], [3, 9]] 6 (some [4, 2]) 100 with
+example : (match evaluate Gen.Divisor.d_hondt 0 [0, 1] [[5, 0], [3, 9]] 6 (some [4, 2]) 100 with
     | .error .votingSystemError => true
-    | _ => false) = true ∧ votesOk [[5, 0], [3, 9]] = true ∧ hasVotes [[5, 0], [3, 9]] = true := by
+    | _ => false) = true ∧ votesOk [[5, 0], [3, 9]] = true ∧ hasVotes [[5, 0], [3, 9]] = true
+      ∧ ordCovers [0, 1] [[5, 0], [3, 9]] = true := by
   decide +kernel
 example : infeasibleCheckL [[5, 0], [3, 9]] [4, 2] [2, 4] [0] [0] = true := by decide +kernel
 /-- the cut is rejected for a feasible instance -/
